@@ -23,6 +23,7 @@
 #include "parse_expression.h"
 #include "plugin_manager.h"
 #include "expression_builtin.h"
+#include "functor_manager.h"
 
 #include <cstring>
 
@@ -210,6 +211,7 @@ Executable * Parser::parse(Context& ctx, StreamReader& reader, bool trace /*= fa
   try
   {
     ctx.parsingBegin();
+    ctx.functorManager().beginUnit();
     for (;;)
     {
       TokenPtr t;
@@ -226,6 +228,7 @@ Executable * Parser::parse(Context& ctx, StreamReader& reader, bool trace /*= fa
       if (s != nullptr)
         statements.push_back(s);
     }
+    ctx.functorManager().commitUnit();
     ctx.parsingEnd();
     if (trace && ctx.ctxerr())
       fflush(ctx.ctxerr());
@@ -233,6 +236,8 @@ Executable * Parser::parse(Context& ctx, StreamReader& reader, bool trace /*= fa
   }
   catch (ParseError& pe)
   {
+    /* revert the function declarations made by the rejected source */
+    ctx.functorManager().rollbackUnit();
     ctx.parsingEnd();
     for (auto s : statements)
       delete s;
